@@ -9,6 +9,17 @@ VERIF=$(cd "$(dirname "$0")/.." && pwd)
 SCR=$(mktemp -d /tmp/verif-selftest.XXXXXX)
 trap 'rm -rf "$SCR"' EXIT
 mkdir -p "$SCR/repo" "$SCR/verif"
+# SELFTEST_SNAP=<dir> (made by selftest/snapshot.sh): use a frozen copy of /repo, spec, drivers, known findings and
+# the engine binary, so that a long corpus run is not disturbed by work going on in /repo and /verif meanwhile
+GOVC="$VERIF/bin/govc"
+if [ -n "$SELFTEST_SNAP" ]; then
+  cp -r "$SELFTEST_SNAP/repo/." "$SCR/repo/" || exit 3
+  (cd "$SCR/repo" && patch -p1 -s < "$PATCH") || { echo "PATCH-FAILED $PATCH"; exit 3; }
+  ln -s "$SELFTEST_SNAP/spec" "$SCR/verif/spec"
+  mkdir -p "$SCR/verif/replay"; ln -s "$SELFTEST_SNAP/drivers" "$SCR/verif/replay/drivers"
+  cp "$SELFTEST_SNAP/known_findings.txt" "$SCR/verif/" 2>/dev/null
+  GOVC="$SELFTEST_SNAP/govc"
+else
 (cd /repo && git ls-files -z | xargs -0 cp --parents -t "$SCR/repo") || exit 3
 # uncommitted contract/lemma files too
 (cd /repo && git ls-files -z --others --exclude-standard | xargs -0 -r cp --parents -t "$SCR/repo")
@@ -16,9 +27,10 @@ mkdir -p "$SCR/repo" "$SCR/verif"
 ln -s "$VERIF/spec" "$SCR/verif/spec"; ln -s "$VERIF/replay" "$SCR/verif/replaysrc"
 mkdir -p "$SCR/verif/replay"; ln -s "$VERIF/replay/drivers" "$SCR/verif/replay/drivers"
 [ -f "$VERIF/known_findings.txt" ] && cp "$VERIF/known_findings.txt" "$SCR/verif/"
+fi
 if [ -n "$SELFTEST_BUILD" ]; then (cd "$SCR/repo" && go build ./... ) || { echo "BUILD-FAILED"; exit 3; }; fi
 for id in "$@"; do
-  "$VERIF/bin/govc" check -repo "$SCR/repo" -verif "$SCR/verif" "$id" quick > "$SCR/out.$id" 2>&1
+  "$GOVC" check -repo "$SCR/repo" -verif "$SCR/verif" "$id" quick > "$SCR/out.$id" 2>&1
   rc=$?
   echo "$id exit=$rc $(grep -c '^VIOLATION' "$SCR/out.$id") violation(s): $(grep '  failed:' "$SCR/out.$id" | head -3 | cut -c1-160 | tr '\n' ';')"
   [ -n "$SELFTEST_VERBOSE" ] && cat "$SCR/out.$id"
